@@ -191,6 +191,9 @@ struct World {
     files: Vec<String>,
     /// `use` declarations per module: which traits and helpers are in scope decides what a method call resolves to
     uses: Vec<(String, String)>,
+    /// item inventory per module: every fn / type / trait / impl header / const / macro (a new helper type with its own
+    /// Deserialize impl, a new trait with an impl for a container type, a forwarding impl: none changes an existing body)
+    inventory: Vec<(String, String)>,
 }
 
 fn mod_join(a: &str, b: &str) -> String {
@@ -276,6 +279,47 @@ fn collect_items(w: &mut World, src: &Path, file: &Path, module: &str, cfg: &Cfg
         let c = cfg.and(&cfg_of(attrs));
         if c.is_test() {
             continue;
+        }
+        {
+            let sq = |t: String| t.replace(' ', "");
+            let sig = match &item {
+                Item::Fn(f) => Some(format!("fn {}", f.sig.ident)),
+                Item::Struct(x) => Some(format!("struct {}", x.ident)),
+                Item::Enum(x) => Some(format!("enum {}", x.ident)),
+                Item::Trait(x) => Some(format!(
+                    "trait {} {{{}}}",
+                    x.ident,
+                    x.items.iter().filter_map(|ti| if let syn::TraitItem::Fn(f) = ti { Some(f.sig.ident.to_string()) } else { None }).collect::<Vec<_>>().join(",")
+                )),
+                Item::Type(x) => Some(format!("type {}", x.ident)),
+                Item::Const(x) => Some(format!("const {}", x.ident)),
+                Item::Static(x) => Some(format!("static {}", x.ident)),
+                Item::Mod(x) => Some(format!("mod {}", x.ident)),
+                Item::Macro(x) => Some(format!("macro {}", sq(x.mac.path.to_token_stream().to_string()))),
+                Item::Impl(im) => Some(format!(
+                    "impl{} {}{} {{{}}}",
+                    sq(im.generics.to_token_stream().to_string()),
+                    match &im.trait_ {
+                        Some((_, t, _)) => format!("{} for ", sq(t.to_token_stream().to_string())),
+                        None => String::new(),
+                    },
+                    sq(im.self_ty.to_token_stream().to_string()),
+                    im.items
+                        .iter()
+                        .filter_map(|ii| match ii {
+                            syn::ImplItem::Fn(f) => Some(f.sig.ident.to_string()),
+                            syn::ImplItem::Const(k) => Some(format!("const {}", k.ident)),
+                            syn::ImplItem::Type(t) => Some(format!("type {}", t.ident)),
+                            _ => None,
+                        })
+                        .collect::<Vec<_>>()
+                        .join(",")
+                )),
+                _ => None,
+            };
+            if let Some(sg) = sig {
+                w.inventory.push((module.to_string(), if matches!(c, Cfg::True) { sg } else { format!("{} if {}", sg, c.coq()) }));
+            }
         }
         match item {
             Item::Mod(m) => {
@@ -1676,6 +1720,14 @@ fn main() {
         for (m, mut us) in per {
             us.sort();
             shapes.push((format!("{}::<uses>", if m.is_empty() { "crate" } else { m.as_str() }), us));
+        }
+        // ... and its item inventory (in source order)
+        let mut inv: BTreeMap<String, Vec<String>> = BTreeMap::new();
+        for (m, i) in &w.inventory {
+            inv.entry(m.clone()).or_default().push(i.clone());
+        }
+        for (m, is) in inv {
+            shapes.push((format!("{}::<items>", if m.is_empty() { "crate" } else { m.as_str() }), is));
         }
     }
     for li in &w.fns {
